@@ -1,4 +1,352 @@
 package simrt
 
-// RaceDetector is the simulator-level happens-before detector (C17); see race_impl.go.
-type RaceDetector struct{}
+import (
+	"fmt"
+	"reflect"
+	"sync"
+	"unsafe"
+)
+
+// Simulator-level happens-before race detector (C17). Go's own race detector is blind
+// under baton passing (every hand-off is itself a happens-before edge), so accesses
+// reported by the probes the "yield" source pass inserted are checked against vector
+// clocks the kernel maintains per task. Happens-before edges: setup -> every task;
+// request send -> server task of that connection; response send -> the reading client
+// task; completion of a once body -> later callers; unlock -> next lock.
+
+type vclock map[int]uint64
+
+func (a vclock) join(b vclock) {
+	for t, v := range b {
+		if a[t] < v {
+			a[t] = v
+		}
+	}
+}
+
+func (a vclock) clone() vclock {
+	c := vclock{}
+	for t, v := range a {
+		c[t] = v
+	}
+	return c
+}
+
+type accRec struct {
+	task int
+	tick uint64
+	site string
+}
+
+type shadow struct {
+	pin       unsafe.Pointer // keeps the object alive so its address is not reused within the run
+	lastWrite *accRec
+	reads     map[int]*accRec
+}
+
+// RaceReport is one detected unordered conflicting access pair.
+type RaceReport struct {
+	Addr   uintptr
+	First  string
+	Second string
+	Kind   string // write-write | read-write | write-read
+}
+
+type RaceDetector struct {
+	clocks  map[int]vclock
+	shadows map[uintptr]*shadow
+	Reports []RaceReport
+	seen    map[string]bool
+	// sync objects
+	onces map[uintptr]*simOnce
+	locks map[uintptr]*simLock
+	Accs  int
+}
+
+type simOnce struct {
+	state   int // 0 fresh, 1 running, 2 done
+	waiters []*waiter
+	clock   vclock
+}
+
+type simLock struct {
+	held    bool
+	readers int
+	waiters []*waiter
+	clock   vclock
+}
+
+func newRaceDetector() *RaceDetector {
+	return &RaceDetector{clocks: map[int]vclock{}, shadows: map[uintptr]*shadow{}, seen: map[string]bool{},
+		onces: map[uintptr]*simOnce{}, locks: map[uintptr]*simLock{}}
+}
+
+const setupTask = -1
+
+func (r *RaceDetector) clockOf(t int) vclock {
+	c := r.clocks[t]
+	if c == nil {
+		c = vclock{t: 1}
+		r.clocks[t] = c
+	}
+	return c
+}
+
+func (r *RaceDetector) tick(t int) { r.clockOf(t)[t]++ }
+
+// fork: child starts with parent's knowledge.
+func (r *RaceDetector) fork(parent, child int) {
+	pc := r.clockOf(parent)
+	cc := r.clockOf(child)
+	cc.join(pc)
+	r.tick(parent)
+}
+
+func (r *RaceDetector) snapshot(t int) vclock {
+	c := r.clockOf(t).clone()
+	r.tick(t)
+	return c
+}
+
+func (r *RaceDetector) acquire(t int, c vclock) {
+	if c != nil {
+		r.clockOf(t).join(c)
+	}
+}
+
+func (r *RaceDetector) ordered(prev *accRec, t int) bool {
+	if prev.task == t {
+		return true
+	}
+	return prev.tick <= r.clockOf(t)[prev.task]
+}
+
+func (r *RaceDetector) report(addr uintptr, a, b *accRec, kind string, bsite string) {
+	key := a.site + "|" + bsite + "|" + kind
+	if r.seen[key] {
+		return
+	}
+	r.seen[key] = true
+	r.Reports = append(r.Reports, RaceReport{Addr: addr, First: a.site, Second: bsite, Kind: kind})
+}
+
+func (r *RaceDetector) access(t int, p unsafe.Pointer, write bool, site string) {
+	addr := uintptr(p)
+	r.Accs++
+	if t == setupTask {
+		return // setup happens-before every task
+	}
+	sh := r.shadows[addr]
+	if sh == nil {
+		sh = &shadow{reads: map[int]*accRec{}, pin: p}
+		r.shadows[addr] = sh
+	}
+	c := r.clockOf(t)
+	rec := &accRec{task: t, tick: c[t], site: site}
+	if write {
+		if sh.lastWrite != nil && !r.ordered(sh.lastWrite, t) {
+			r.report(addr, sh.lastWrite, rec, "write-write", site)
+		}
+		for _, rd := range sh.reads {
+			if !r.ordered(rd, t) {
+				r.report(addr, rd, rec, "read-write", site)
+			}
+		}
+		sh.lastWrite = rec
+		sh.reads = map[int]*accRec{}
+	} else {
+		if sh.lastWrite != nil && !r.ordered(sh.lastWrite, t) {
+			r.report(addr, sh.lastWrite, rec, "write-read", site)
+		}
+		sh.reads[t] = rec
+	}
+}
+
+// ---------- entry points called by instrumented generated code ----------
+
+// Current is the kernel of the run in progress (one run at a time per process).
+var Current *Kernel
+
+var accMu sync.Mutex
+
+// Acc records an access to shared state and offers the scheduler a pre-emption point.
+func Acc(site string, addr unsafe.Pointer, write bool) {
+	k := Current
+	if k == nil || k.Race == nil || k.closing {
+		return
+	}
+	t := k.cur
+	k.Race.access(t, addr, write, site)
+	if t == setupTask {
+		return
+	}
+	k.Stats.Probe("acc")
+	k.Yield(k.curCall, "acc:"+site)
+}
+
+// MapID returns a stable identity for a map value (nil for nil maps).
+func MapID(m any) unsafe.Pointer {
+	v := reflect.ValueOf(m)
+	if v.Kind() != reflect.Map || v.IsNil() {
+		return nil
+	}
+	return v.UnsafePointer()
+}
+
+// AccMap is Acc on a map's identity.
+func AccMap(site string, m any, write bool) {
+	p := MapID(m)
+	if p == nil {
+		return
+	}
+	Acc(site, p, write)
+}
+
+// OnceDo replaces (*sync.Once).Do in instrumented code with a simulator-aware once:
+// a second caller parks on a kernel waiter (durably blocked) instead of on the
+// once's internal mutex.
+func OnceDo(o *sync.Once, f func()) {
+	k := Current
+	if k == nil || k.Race == nil || k.closing || k.cur == setupTask {
+		o.Do(f)
+		return
+	}
+	r := k.Race
+	so := r.onces[uintptr(unsafe.Pointer(o))]
+	if so == nil {
+		so = &simOnce{}
+		r.onces[uintptr(unsafe.Pointer(o))] = so
+	}
+	t := k.cur
+	call := k.curCall
+	k.Yield(call, "once-enter")
+	t = k.cur
+	switch so.state {
+	case 2:
+		r.acquire(t, so.clock)
+		return
+	case 1:
+		k.Stats.Probe("once_contended")
+		w := &waiter{site: "once-wait", call: call, ch: make(chan struct{}), blocked: true, task: t}
+		so.waiters = append(so.waiters, w)
+		<-w.ch
+		r.acquire(k.cur, so.clock)
+		return
+	}
+	so.state = 1
+	k.Event("once", "first task=%d", t)
+	f()
+	t = k.cur
+	so.clock = r.snapshot(t)
+	so.state = 2
+	k.Event("once", "done task=%d", t)
+	for _, w := range so.waiters {
+		k.post(kmsg{kind: "park", w: w, ord: w.task})
+	}
+	so.waiters = nil
+}
+
+func lockOf(k *Kernel, p unsafe.Pointer) *simLock {
+	l := k.Race.locks[uintptr(p)]
+	if l == nil {
+		l = &simLock{}
+		k.Race.locks[uintptr(p)] = l
+	}
+	return l
+}
+
+// Lock / Unlock replace sync.Mutex / sync.RWMutex operations in instrumented code.
+func Lock(p unsafe.Pointer, real sync.Locker) {
+	k := Current
+	if k == nil || k.Race == nil || k.closing || k.cur == setupTask {
+		real.Lock()
+		return
+	}
+	l := lockOf(k, p)
+	call := k.curCall
+	k.Yield(call, "lock")
+	for l.held || l.readers > 0 {
+		k.Stats.Probe("lock_contended")
+		w := &waiter{site: "lock-wait", call: call, ch: make(chan struct{}), blocked: true, task: k.cur}
+		l.waiters = append(l.waiters, w)
+		<-w.ch
+	}
+	l.held = true
+	k.Race.acquire(k.cur, l.clock)
+}
+
+func Unlock(p unsafe.Pointer, real sync.Locker) {
+	k := Current
+	if k == nil || k.Race == nil || k.closing || k.cur == setupTask {
+		real.Unlock()
+		return
+	}
+	l := lockOf(k, p)
+	l.held = false
+	l.clock = k.Race.snapshot(k.cur)
+	ws := l.waiters
+	l.waiters = nil
+	for _, w := range ws {
+		k.post(kmsg{kind: "park", w: w, ord: w.task})
+	}
+}
+
+func RLock(p unsafe.Pointer, real *sync.RWMutex) {
+	k := Current
+	if k == nil || k.Race == nil || k.closing || k.cur == setupTask {
+		real.RLock()
+		return
+	}
+	l := lockOf(k, p)
+	call := k.curCall
+	k.Yield(call, "rlock")
+	for l.held {
+		w := &waiter{site: "rlock-wait", call: call, ch: make(chan struct{}), blocked: true, task: k.cur}
+		l.waiters = append(l.waiters, w)
+		<-w.ch
+	}
+	l.readers++
+	k.Race.acquire(k.cur, l.clock)
+}
+
+func RUnlock(p unsafe.Pointer, real *sync.RWMutex) {
+	k := Current
+	if k == nil || k.Race == nil || k.closing || k.cur == setupTask {
+		real.RUnlock()
+		return
+	}
+	l := lockOf(k, p)
+	l.readers--
+	if l.clock == nil {
+		l.clock = vclock{}
+	}
+	l.clock.join(k.Race.snapshot(k.cur))
+	if l.readers == 0 {
+		ws := l.waiters
+		l.waiters = nil
+		for _, w := range ws {
+			k.post(kmsg{kind: "park", w: w, ord: w.task})
+		}
+	}
+}
+
+func (r RaceReport) String() string {
+	return fmt.Sprintf("%s between %s and %s", r.Kind, r.First, r.Second)
+}
+
+// AccF is Acc with a lazily computed address: a nil base pointer (guarded by a
+// short-circuit condition in the original statement) must not panic in the probe.
+func AccF(site string, addr func() unsafe.Pointer, write bool) {
+	if Current == nil || Current.Race == nil {
+		return
+	}
+	var p unsafe.Pointer
+	func() {
+		defer func() { _ = recover() }()
+		p = addr()
+	}()
+	if p == nil {
+		return
+	}
+	Acc(site, p, write)
+}
